@@ -32,6 +32,8 @@ type loopRT struct {
 	entered bool
 	dec0    *Term
 	sliceObj map[*ssa.Phi]*Obj
+	logBase  int
+	headSnap *Snapshot
 }
 
 func (fr *Frame) loc(instr ssa.Instruction) string {
@@ -364,6 +366,8 @@ func (fr *Frame) loopHeader(b, prev *ssa.BasicBlock, lrt *loopRT) {
 		if lc.Decreases != nil {
 			lrt.dec0 = asTerm(s.evalClauseValue(lc.Decreases, args(), s.entry))
 		}
+		lrt.logBase = len(s.log)
+		lrt.headSnap = s.snapshot()
 		return
 	}
 	// back edge
@@ -375,6 +379,12 @@ func (fr *Frame) loopHeader(b, prev *ssa.BasicBlock, lrt *loopRT) {
 	for i, c := range lc.Invariants {
 		g := s.evalClause(c, args(), s.entry)
 		s.oblige("loop", fmt.Sprintf("loop%d:preserve:%d", lrt.ord, i), g)
+	}
+	for i, c := range lc.BodyEnsures {
+		s.callerLogBase = append(s.callerLogBase, lrt.logBase)
+		g := s.evalClause(c, args(), lrt.headSnap)
+		s.callerLogBase = s.callerLogBase[:len(s.callerLogBase)-1]
+		s.obligeSplit("loop", fmt.Sprintf("loop%d:body:%s", lrt.ord, clauseLabel(c, i)), g)
 	}
 	if lc.Decreases != nil {
 		d := asTerm(s.evalClauseValue(lc.Decreases, args(), s.entry))
@@ -827,9 +837,9 @@ func (s *State) ptrEq(x, y *PtrV) *Term {
 	if x.Nil.IsTrue() || y.Nil.IsTrue() {
 		return bothNil
 	}
-	xo, yo := x.object(), y.object()
-	same := xo == yo && len(x.Path) == len(y.Path)
-	if same {
+	xo, yo := x.Obj, y.Obj
+	if xo != nil && xo == yo && len(x.Path) == len(y.Path) {
+		same := true
 		var cs []*Term
 		for i := range x.Path {
 			if x.Path[i].Field != y.Path[i].Field {
@@ -843,8 +853,31 @@ func (s *State) ptrEq(x, y *PtrV) *Term {
 		if same {
 			return Or(bothNil, And(Not(x.Nil), Not(y.Nil), And(cs...)))
 		}
+		return bothNil
+	}
+	// two pointers of unknown provenance (pre-state fields, values received from peers) may be equal:
+	// compare their symbolic identities.  An object allocated by the code itself differs from everything else.
+	if x.Addr != nil && y.Addr != nil && len(x.Path) == 0 && len(y.Path) == 0 {
+		if (xo != nil && xo.Fresh) || (yo != nil && yo.Fresh) {
+			return bothNil
+		}
+		return Or(bothNil, And(Not(x.Nil), Not(y.Nil), Eq(x.Addr, y.Addr)))
 	}
 	return bothNil
+}
+
+// ptrID: a term identifying the pointer value (0 for nil), used for maps keyed by pointers.
+func (s *State) ptrID(p *PtrV) *Term {
+	var id *Term
+	switch {
+	case p.Addr != nil && (p.Obj == nil || !p.Obj.Fresh):
+		id = p.Addr
+	case p.object() != nil:
+		id = Const(64, uint64(1<<40)+uint64(p.Obj.ID))
+	default:
+		id = Const(64, 0)
+	}
+	return Ite(p.Nil, Const(64, 0), id)
 }
 
 func (s *State) ifaceEq(x, y *IfaceV) *Term {
